@@ -331,7 +331,9 @@ def run_inventory(facts, root_insts, base_fields=None, root_params=None):
 PURE_OBSERVERS = ('core::cmp::PartialEq::eq', 'core::cmp::PartialEq::ne', 'core::cmp::PartialOrd::lt', 'core::cmp::PartialOrd::le',
                   'core::cmp::PartialOrd::gt', 'core::cmp::PartialOrd::ge', 'core::option::Option::is_some',
                   'core::option::Option::is_none', 'core::result::Result::is_ok', 'core::result::Result::is_err',
-                  'core::result::Result::ok', 'core::result::Result::err', 'core::option::Option::ok_or')
+                  'core::result::Result::ok', 'core::result::Result::err', 'core::option::Option::ok_or',
+                  'core::convert::From::from', 'core::convert::Into::into', 'core::option::Option::map_or',
+                  'core::option::Option::unwrap_or', 'core::cmp::Ord::min', 'core::cmp::Ord::max')
 
 
 def inside_debug_assert(fn, b):
@@ -389,6 +391,9 @@ def feeds_only_debug_assert(fn, start_locals, skip_assert_blk=None):
                             if tt['dest']['l'] not in S:
                                 S.add(tt['dest']['l'])
                                 changed = True
+                        elif (tt.get('callee') or '').startswith('core::panicking::') and \
+                                (tt['span'].get('expn') or '').startswith('debug_assert'):
+                            pass  # the assertion's own failure report (`assert_failed(kind, &left, &right, ..)`)
                         else:
                             return False
             elif tt['k'] == 'switch':
